@@ -425,6 +425,11 @@ int cmdProbe1(int argc, char** argv) {
 		}
 		catch (...) {
 		}
+		if (x == -1) {
+			printf("scalar kinds:");
+			for (auto k : si.scalarKinds) printf(" %d", k);
+			printf("\n");
+		}
 		printf("value %lld ok=%d transfers=%zu served=%zu exact=%llx signature=%llx roundTrip=%d\n", x, ok, si.ncodes, si.served.size(), (unsigned long long) si.exact,
 			   (unsigned long long) si.tape, si.roundTrip);
 	}
